@@ -178,6 +178,7 @@ type Exec struct {
 	relaxed  bool // floats are reals with rounding-error terms (see relaxed.go)
 	opaque    bool // structure-only: float operations are uninterpreted functions
 	rerrArgs  []string
+	noSubnormal bool // instance assumption: no non-zero subnormal result of a multiplication / division (inputs are 0 or >= 1e-200 in magnitude, constants moderate)
 	relaxedUF bool // rounding error as an uninterpreted function of the exact result (keeps repeated computations equal) instead of a fresh constant per operation
 }
 
